@@ -56,6 +56,7 @@ type c03Flow struct {
 	extLen   []int
 	ipOpts   int // IPv4 option bytes (multiple of 4)
 	daeOwned int // 0 no, 1 by pid, 2 by socket mark
+	synPassMark uint32 // != 0: the SYN was forwarded as direct with this mark while the flow could not be stored
 	cookie   uint64
 	pid      uint32
 	udpSock  uint8 // socket-lookup answer for LAN UDP (0 none, 1 somebody's socket, 2 dae's own)
@@ -946,10 +947,18 @@ func (st *c03State) sendNext(f *c03Flow) {
 	case f.p.tcp:
 		if stp.syn && !stp.ack {
 			f.tracked, f.closing, f.tainted, f.originIn = true, false, false, false
+			f.synPassMark = 0
 			f.decision = st.route(f)
 			first = true
 		} else if !f.tracked || f.tainted {
-			return // statement silent: mid-stream segment of a flow that is not (or could not be) tracked
+			// statement silent: mid-stream segment of a flow that is not (or could not be) tracked - except
+			// that when the datapath itself forwarded the SYN as direct with the rule's mark although it could
+			// not remember the flow, the segments it forwards afterwards belong to that same decision: they must
+			// not leave with another mark (one connection split over two fwmark routes)
+			if f.tainted && f.synPassMark != 0 && (f.kind == 0 || f.kind == 3) && res.Rc == w.c.ActOK && res.RedirectKind == 0 && res.Mark != f.synPassMark {
+				s.Failf("sticky-decision/mark-lost-after-unstored-syn", "sticky-decision/mark-lost-after-unstored-syn: %s: the SYN of this connection was forwarded as direct with mark %#x while its conn_state entry could not be stored (injected map fault); this later segment is forwarded with mark %#x", what, f.synPassMark, res.Mark)
+			}
+			return
 		}
 		d = f.decision
 	default:
@@ -1074,6 +1083,9 @@ func (st *c03State) sendNext(f *c03Flow) {
 		}
 		if res.Mark != wantMark {
 			s.Failf("verdict-direct", "direct traffic: skb->mark=%#x, want %#x\n%s", res.Mark, wantMark, desc())
+		} else if first && f.p.tcp && f.tainted && lan && d.mark != 0 {
+			f.synPassMark = d.mark
+			s.Probe("kern.syn-forwarded-with-mark-but-not-remembered")
 		}
 	case vRedirect:
 		s.Probe("kern.redirect")
@@ -1120,6 +1132,26 @@ func (st *c03State) checkHandover(f *c03Flow, d refDecision, expOut uint8, res *
 	if w.real {
 		if !w.FlowMapsToKernel() {
 			return
+		}
+		if st.s.T.Chance(1, 4) {
+			// a pass of the production hand-over janitor that is in progress while this frame is redirected:
+			// it sampled the clock before the kernel published the record (1 µs .. 2 s earlier) and reaches the
+			// record afterwards. A record younger than the sample is not expired.
+			back := []uint64{1e3, 1e6, 5e8, 2e9}[st.s.T.Choose(4)]
+			sample := w.now
+			if sample > back {
+				sample -= back
+			}
+			saved := verifMonotonicNow
+			verifMonotonicNow = func() (uint64, error) { return sample, nil }
+			cp := &ControlPlane{log: st.w.log, core: st.gen.core, controlPlaneDatapathJanitor: newControlPlaneDatapathJanitor()}
+			n := cp.cleanupRoutingHandoffMapBeforeLocked(0)
+			verifMonotonicNow = saved
+			st.s.Probe("kern.handoff-janitor-pass-racing-a-redirect")
+			if n > 0 {
+				st.s.Probe("kern.handoff-janitor-deleted")
+			}
+			st.w.FlowMapsFromKernel()
 		}
 		got, err = st.gen.core.RetrieveRoutingResult(src, dst, proto)
 	} else {
